@@ -12,7 +12,7 @@ from .engine import Unsupported
 from .ops import FullEngine
 from . import solve
 
-CONTRACT_MODULES = ["contracts.structure"]
+CONTRACT_MODULES = ["contracts.structure", "contracts.props"]
 
 
 def load_contracts():
@@ -82,6 +82,59 @@ def verify_function(qualname: str, repo_root=None, keep_models=False):
     res["pruned"] = eng.stats["pruned"]
     res["seconds"] = time.time() - t0
     return res
+
+
+def verify_lemma(lemma_id: str, repo_root=None, keep_models=False):
+    t0 = time.time()
+    reg = load_contracts()
+    repo = Repo(repo_root)
+    eng = FullEngine(repo, reg)
+    res = {"function": lemma_id, "status": "ok", "obligations": [], "sha256": None, "file": None, "lemma": True}
+    fn = None
+    for (lid, props, f) in reg.lemmas:
+        if lid == lemma_id:
+            fn = f
+    try:
+        if fn is None:
+            raise Unsupported(f"unknown lemma {lemma_id}")
+        fn(eng)
+    except Unsupported as exc:
+        res["status"] = "undecided"
+        res["reason"] = f"unsupported: {exc}"
+        res["seconds"] = time.time() - t0
+        return res
+    except Exception as exc:
+        res["status"] = "error"
+        res["reason"] = "".join(traceback.format_exception_only(type(exc), exc)).strip()
+        res["traceback"] = traceback.format_exc()
+        res["seconds"] = time.time() - t0
+        return res
+    discharge_all(eng, res, keep_models)
+    res["seconds"] = time.time() - t0
+    return res
+
+
+def discharge_all(eng, res, keep_models=False):
+    base = eng.base_facts()
+    for ob in eng.obligs:
+        try:
+            r = solve.discharge(ob, eng.ct.axioms_for, base)
+        except Exception as exc:
+            res["obligations"].append({"id": ob.oid, "kind": ob.kind, "status": "unknown", "backend": "-",
+                                       "seconds": 0.0, "reason": f"solver error: {exc}", "meta": ob.meta})
+            continue
+        entry = {"id": ob.oid, "kind": ob.kind, "status": r.status, "backend": r.backend, "seconds": round(r.seconds, 4),
+                 "ninst": r.ninst, "meta": ob.meta}
+        if r.reason:
+            entry["reason"] = r.reason
+        if r.status == "refuted":
+            entry["model"] = model_summary(r.model, ob)
+            if keep_models:
+                entry["_model"] = r.model
+                entry["_ob"] = ob
+        res["obligations"].append(entry)
+    res["paths"] = eng.stats["paths"]
+    res["pruned"] = eng.stats["pruned"]
 
 
 def print_result(res, verbose=False):
